@@ -47,11 +47,22 @@ impl FixtureDatabase {
             self.analyze_file_from_disk(module_path.to_path_buf(), &content, false);
             return true;
         }
-        match self.file_cache.entry(module_path.to_path_buf()) {
-            dashmap::mapref::entry::Entry::Occupied(_) => return false,
+        let claimed = match self.file_cache.entry(module_path.to_path_buf()) {
+            dashmap::mapref::entry::Entry::Occupied(_) => false,
             dashmap::mapref::entry::Entry::Vacant(vacant) => {
                 vacant.insert(std::sync::Arc::new(content.clone()));
+                true
             }
+        };
+        if !claimed {
+            // The text that is there may be the buffer of a document that was opened since
+            // the test above (the mark is set before the text is cached) and that does not
+            // parse: not a claim either.
+            if self.open_documents.contains_key(module_path) {
+                self.analyze_file_from_disk(module_path.to_path_buf(), &content, false);
+                return true;
+            }
+            return false;
         }
         debug!("Analyzing imported module: {:?}", module_path);
         self.analyze_file_from_disk(module_path.to_path_buf(), &content, false);
